@@ -112,6 +112,9 @@ DPConf == {R(<<3>>)}
 BaseOut == BaseStd @@ (<<11>> :> DIR) @@ (<<11, 1>> :> 7) @@ (<<12>> :> DIR) @@ (<<12, 2>> :> 8) @@ (<<6>> :> 9)
 FPOut == {R(<<1>>), R(<<2>>), R(<<3, 2>>), <<11, 1>>, <<11, 2>>, <<12, 2>>, <<12, 1>>, <<6>>}
 DPOut == {R(<<3>>), R(<<4>>), <<11, 3>>, <<12, 3>>, <<4>>}
+\* names differing only by case (1 = "a", 5 = "A"; 3 = "d", 7 = "D"): case-only renames on case-insensitive sides
+FPCase == {R(<<1>>), R(<<5>>), R(<<3, 2>>), R(<<7, 2>>)}
+DPCase == {R(<<3>>), R(<<7>>)}
 FPMix == {R(<<1>>), R(<<2>>), R(<<3>>), R(<<3, 1>>), R(<<2, 1>>)}
 DPMix == {R(<<2>>), R(<<3>>)}
 =============================================================================
